@@ -2,6 +2,8 @@ import CoxeterVerif.Lemmas.HeapRefine
 import CoxeterVerif.Lemmas.HeapRounded
 import CoxeterVerif.Lemmas.HeapCtor
 import CoxeterVerif.Lemmas.HeapCtorObs
+import CoxeterVerif.Lemmas.HeapLawful
+import CoxeterVerif.Lemmas.HeapLawfulPolygon
 /-!
   # C16 — queries are free of side effects
 
@@ -867,3 +869,155 @@ example : EntriesRel (fun x x' => |x'.val - x.val| ≤ 3 + 11 * (1 / 8) * 17) (p
     simp [polyR, St.get, Heap.get] at hx
     rcases hx with rfl | rfl | rfl | rfl | rfl | rfl | rfl | rfl | rfl <;> norm_num [abs_le]
 end
+
+/-! ## `Spec.Lawful` discharged for the concrete getter models of C01, C02, C04
+
+`polygonMeas M0 frame`, `polyhedronMeas M0 simp`, `convexMeas M0 simp` (Lemmas/HeapLawful*.lean) are externals
+whose centroid / volume functions ARE the measure models of C04 (`Poly2.centroid`), C02 (`Poly3.centroid` of the
+gathered surface) and C01 (`CP.volume`, `CP.centroid`) on every array that carries the certificate those
+properties need and that their drivers evaluate per run (planar cycle + triangulation + non-zero area; closed
+surface bounding tetrahedra + non-zero / positive volume) — `polygonMeas_cen`, `polyhedronMeas_cen`,
+`convexMeas_vol`, `convexMeas_cenV`. `lawful_polygon`, `lawful_polyhedron`, `lawful_convex_polyhedron` prove
+`Spec.Lawful` for them outright (from C04's `centroid_general_exact`, C02's `poly_centroid_exact`, C01's
+`cp_volume_exact` / `cp_centroid_exact` and the translation laws of the exact moments), so every theorem above
+holds for them with no hypothesis on the externals' behaviour under translation. -/
+
+/-- what every history guarantees once `Lawful` is known (packaging of the theorems above) -/
+theorem lawful_histories (M : Meas ℝ) (hL : Spec.Lawful M) (qs : List Query) (s : St ℝ) (hI : Spec.Inv M s)
+    (ha : ∀ q, q ∈ qs → ArgsOk s q) :
+    Spec.SameObservables s (runAll M qs s) ∧
+    runAnswers M qs s = qs.map (fun q => Spec.answer M s.cls (observe s) (q.argOf s) q) ∧
+    Spec.ArgsUnchanged s (runAll M qs s) ∧ Spec.HandedUnchanged s (runAll M qs s) ∧
+    Spec.VerticesAttached s (runAll M qs s) :=
+  ⟨queries_preserve_observables M hL qs s hI ha, queries_answers_spec M hL qs s hI ha,
+    (queries_preserve_args_and_handed_out M hL qs s hI ha).1, (queries_preserve_args_and_handed_out M hL qs s hI ha).2.1,
+    (queries_preserve_args_and_handed_out M hL qs s hI ha).2.2.1⟩
+
+/-- `to_hoomd` puts every coordinate back exactly (over ℝ) once `Lawful` is known -/
+theorem lawful_to_hoomd_exact (M : Meas ℝ) (hL : Spec.Lawful M) (s : St ℝ) (hI : Spec.Inv M s) :
+    (run M .toHoomd s).1.get s.fVerts = s.get s.fVerts := by
+  have ho := congrArg Obs.verts (query_preserves_observables M hL .toHoomd s hI)
+  have hv : (run M .toHoomd s).1.fVerts = s.fVerts := query_keeps_vertices_attached M .toHoomd s hI.wf
+  have : (observe (run M .toHoomd s).1).verts = (run M .toHoomd s).1.get s.fVerts := by
+    show (run M .toHoomd s).1.get (run M .toHoomd s).1.fVerts = _
+    rw [hv]
+  rw [← this]; exact ho
+
+/-- **Polygon / ConvexPolygon / ConvexSpheropolygon with C04's centroid getter**: every history of queries
+leaves the observables alone, answers by the value semantics, leaves arguments and hand-outs alone — no
+assumption about the getter. -/
+theorem polygon_histories (M0 : Meas ℝ) (frame : V3 ℝ → M3 ℝ) (qs : List Query) (s : St ℝ)
+    (hI : Spec.Inv (polygonMeas M0 frame) s) (ha : ∀ q, q ∈ qs → ArgsOk s q) :
+    Spec.SameObservables s (runAll (polygonMeas M0 frame) qs s) ∧
+    runAnswers (polygonMeas M0 frame) qs s
+      = qs.map (fun q => Spec.answer (polygonMeas M0 frame) s.cls (observe s) (q.argOf s) q) ∧
+    Spec.ArgsUnchanged s (runAll (polygonMeas M0 frame) qs s) ∧
+    Spec.HandedUnchanged s (runAll (polygonMeas M0 frame) qs s) ∧
+    Spec.VerticesAttached s (runAll (polygonMeas M0 frame) qs s) :=
+  lawful_histories _ (lawful_polygon M0 frame) qs s hI ha
+
+/-- **Polyhedron with C02's centroid getter** -/
+theorem polyhedron_histories (M0 : Meas ℝ) (simp : List (Nat × Nat × Nat)) (qs : List Query) (s : St ℝ)
+    (hI : Spec.Inv (polyhedronMeas M0 simp) s) (ha : ∀ q, q ∈ qs → ArgsOk s q) :
+    Spec.SameObservables s (runAll (polyhedronMeas M0 simp) qs s) ∧
+    runAnswers (polyhedronMeas M0 simp) qs s
+      = qs.map (fun q => Spec.answer (polyhedronMeas M0 simp) s.cls (observe s) (q.argOf s) q) ∧
+    Spec.ArgsUnchanged s (runAll (polyhedronMeas M0 simp) qs s) ∧
+    Spec.HandedUnchanged s (runAll (polyhedronMeas M0 simp) qs s) ∧
+    Spec.VerticesAttached s (runAll (polyhedronMeas M0 simp) qs s) :=
+  lawful_histories _ (lawful_polyhedron M0 simp) qs s hI ha
+
+/-- **ConvexPolyhedron / ConvexSpheropolyhedron with C01's volume and centroid getters** -/
+theorem convex_polyhedron_histories (M0 : Meas ℝ) (simp : List (Nat × Nat × Nat)) (qs : List Query) (s : St ℝ)
+    (hI : Spec.Inv (convexMeas M0 simp) s) (ha : ∀ q, q ∈ qs → ArgsOk s q) :
+    Spec.SameObservables s (runAll (convexMeas M0 simp) qs s) ∧
+    runAnswers (convexMeas M0 simp) qs s
+      = qs.map (fun q => Spec.answer (convexMeas M0 simp) s.cls (observe s) (q.argOf s) q) ∧
+    Spec.ArgsUnchanged s (runAll (convexMeas M0 simp) qs s) ∧
+    Spec.HandedUnchanged s (runAll (convexMeas M0 simp) qs s) ∧
+    Spec.VerticesAttached s (runAll (convexMeas M0 simp) qs s) :=
+  lawful_histories _ (lawful_convex_polyhedron M0 simp) qs s hI ha
+
+/-- **`to_hoomd` is exact over ℝ for the three concrete getter models**: the displacement `−c₁` of
+`to_hoomd_displacement` vanishes, with nothing assumed about the getters. -/
+theorem to_hoomd_exact_concrete (M0 : Meas ℝ) (frame : V3 ℝ → M3 ℝ) (simp : List (Nat × Nat × Nat)) (s : St ℝ) :
+    (Spec.Inv (polygonMeas M0 frame) s →
+      (run (polygonMeas M0 frame) .toHoomd s).1.get s.fVerts = s.get s.fVerts) ∧
+    (Spec.Inv (polyhedronMeas M0 simp) s →
+      (run (polyhedronMeas M0 simp) .toHoomd s).1.get s.fVerts = s.get s.fVerts) ∧
+    (Spec.Inv (convexMeas M0 simp) s →
+      (run (convexMeas M0 simp) .toHoomd s).1.get s.fVerts = s.get s.fVerts) :=
+  ⟨lawful_to_hoomd_exact _ (lawful_polygon M0 frame) s, lawful_to_hoomd_exact _ (lawful_polyhedron M0 simp) s,
+    lawful_to_hoomd_exact _ (lawful_convex_polyhedron M0 simp) s⟩
+
+/-- the centroid a caller reads from a certified polygon IS C04's getter model -/
+theorem polygon_pubCentroid_is_model (M0 : Meas ℝ) (frame : V3 ℝ → M3 ℝ) (s : St ℝ) (hk : s.cls.kind = .planar)
+    (hc : PlanarCert (frame (l3v (s.get s.fNormal))) (l3v (s.get s.fNormal)) (rowsOf (s.get s.fVerts))) :
+    pubCentroid (polygonMeas M0 frame) s
+      = Poly2.centroid (rowsOf (s.get s.fVerts)) (l3v (s.get s.fNormal)) (frame (l3v (s.get s.fNormal))) := by
+  unfold pubCentroid; rw [hk]; exact polygonMeas_cen M0 frame _ _ hc
+
+/-- the centroid a caller reads from a certified polyhedron IS C02's getter model -/
+theorem polyhedron_pubCentroid_is_model (M0 : Meas ℝ) (simp : List (Nat × Nat × Nat)) (s : St ℝ) (hk : s.cls.kind = .poly)
+    (hc : SolidCert simp false (rowsOf (s.get s.fVerts))) :
+    pubCentroid (polyhedronMeas M0 simp) s = Poly3.centroid (Mut.trisOf (rowsOf (s.get s.fVerts)) simp) := by
+  unfold pubCentroid; rw [hk]; exact polyhedronMeas_cen M0 simp _ _ hc
+
+/-- `Coherent` for a certified convex polyhedron says exactly: `_volume` and `_centroid` hold C01's
+`CP.volume` / `CP.centroid` of the gathered surface -/
+theorem convex_coherent_is_model (M0 : Meas ℝ) (simp : List (Nat × Nat × Nat)) (s : St ℝ) (hk : s.cls.kind = .convex)
+    (hI : Spec.Inv (convexMeas M0 simp) s) (hc : SolidCert simp true (rowsOf (s.get s.fVerts))) :
+    s.volume = CP.volume (Mut.trisOf (rowsOf (s.get s.fVerts)) simp) ∧
+    s.get s.fCen = v3l (CP.centroid (Mut.trisOf (rowsOf (s.get s.fVerts)) simp) s.volume) := by
+  refine ⟨?_, ?_⟩
+  · rw [hI.coh.volume hk]; exact convexMeas_vol M0 simp _ hc
+  · rw [hI.coh.cen hk]; congr 1; exact convexMeas_cenV M0 simp _ _ hc
+
+/-! ### the certificate and the hypotheses are satisfiable: C04's unit square as a `Polygon` on the heap -/
+noncomputable section
+/-- C04's unit square `exSq` as the `(4,3)` vertex array (id 0), normal (0,0,1) (id 1) -/
+def C16.Ex.square : St ℝ :=
+  { C16.Ex.polygon with heap := [(0, [0, 0, 0, 1, 0, 0, 1, 1, 0, 0, 1, 0]), (1, [0, 0, 1]), (2, []), (3, []), (4, [])],
+                        next := 5, handed := [0, 1], args := [] }
+
+theorem C16.Ex.square_cert : PlanarCert (M3.one : M3 ℝ) ⟨0, 0, 1⟩ exSq := by
+  refine ⟨0, exSqT, ⟨isRot_one, by simp [M3.mulVec, M3.one, Scalar.lit]⟩, ?_, ?_, ?_, ?_⟩
+  · intro v hv
+    simp only [exSq, List.mem_cons, List.not_mem_nil, or_false] at hv
+    rcases hv with rfl | rfl | rfl | rfl <;> simp [V3.dot]
+  · intro t ht
+    simp only [exSqT, List.mem_cons, List.not_mem_nil, or_false] at ht
+    rcases ht with rfl | rfl <;> simp [V3.dot]
+  · intro φ hφ
+    have c := hφ ⟨0,0,0⟩ ⟨1,1,0⟩
+    simp [sumEdges, cycleEdges, exSq, exSqT, triEdges, Poly2.rotl] at c ⊢
+    linarith
+  · simp only [Spec3.area, exSqT]; unfold Spec3.triArea; unfold_model; norm_num
+
+theorem C16.Ex.square_inv : Spec.Inv (polygonMeas C16.Ex.M (fun _ => M3.one)) C16.Ex.square where
+  wf := by
+    refine ⟨by decide, by decide, by decide, by decide, by decide, ?_, ?_, ?_, ?_, ?_⟩ <;>
+      simp [C16.Ex.square, C16.Ex.polygon]
+  coh := by
+    refine ⟨fun _ => ?_, fun h => ?_, fun h => ?_, fun h => ?_, fun h => ?_, fun h => ?_, fun i h => ?_⟩
+    · simp [C16.Ex.square, C16.Ex.polygon, St.get, Heap.get]
+    all_goals simp [C16.Ex.square, C16.Ex.polygon, Cls.kind] at h
+end
+
+open C16.Ex in
+/-- on the unit square the centroid the caller reads is C04's `Poly2.centroid exSq (0,0,1) 1`, and
+`to_hoomd`, `inertia_tensor`, `to_hoomd` leave it exactly where it was -/
+example :
+    pubCentroid (polygonMeas M (fun _ => M3.one)) square = Poly2.centroid exSq ⟨0, 0, 1⟩ M3.one ∧
+    Spec.SameObservables square (runAll (polygonMeas M (fun _ => M3.one)) [.toHoomd, .get .inertiaTensor, .toHoomd] square) ∧
+    (run (polygonMeas M (fun _ => M3.one)) .toHoomd square).1.get square.fVerts = square.get square.fVerts := by
+  have hrows : rowsOf (square.get square.fVerts) = exSq := by
+    simp [square, polygon, St.get, Heap.get, rowsOf, exSq]
+  have hn : l3v (square.get square.fNormal) = (⟨0, 0, 1⟩ : V3 ℝ) := by
+    simp [square, polygon, St.get, Heap.get, l3v]
+  refine ⟨?_, (polygon_histories M _ _ square square_inv ?_).1, (to_hoomd_exact_concrete M _ [] square).1 square_inv⟩
+  · have := polygon_pubCentroid_is_model M (fun _ => M3.one) square rfl (by rw [hrows, hn]; exact square_cert)
+    rw [this, hrows, hn]
+  · intro q hq a h
+    simp only [List.mem_cons, List.not_mem_nil, or_false] at hq
+    rcases hq with rfl | rfl | rfl <;> simp [Query.argIds] at h
